@@ -329,8 +329,12 @@ fn has_escapable(s: &str) -> bool {
 
 fn check(ctx: &Ctx, env: &Env, d: &Doc) -> Check {
     ctx.eval();
+    // every document is written over the file of the previous one (shorter and longer texts alternate), every 7th
+    // one onto a missing file: the written text must not depend on what the path held before
     let path = env.scratch.path.join("doc.toml");
-    let _ = std::fs::remove_file(&path);
+    if hash_of(&doc_json(d).to_string()) % 7 == 0 {
+        let _ = std::fs::remove_file(&path);
+    }
     let dj = doc_json(d).to_string();
     let mut nt = has_escapable(&dj.replace("\\\"", "").replace("\\\\", "§").replace('"', "")) || dj.contains("\\u00") || dj.contains("\\n") || dj.contains("§");
     let w = |r: Result<(), libcnb_common::toml_file::TomlFileError>| r.map_err(|e| Fail::new("C07:write-failed", e.to_string()));
